@@ -122,6 +122,7 @@ class _C05(Spec):
     pid = "C05"
     lean_module = "Starcal.Props.C05"
     src_ties = ["Starcal.SrcTie.Interval", "Starcal.SrcTie.Normalize"]
+    src_overflow = ["Starcal.SrcTie.NoOverflow2"]
     # the comparator tie not established: the quick tier already enumerates every tie-breaking case (all lists of <=3
     # intervals over 0..6, both end kinds, every order), so no wider sweep is needed
     supports_wide = True
@@ -164,6 +165,7 @@ class _C04(Spec):
     pid = "C04"
     lean_module = "Starcal.Props.C04"
     src_ties = ["Starcal.SrcTie.Interval", "Starcal.SrcTie.Normalize", "Starcal.SrcTie.Intersect"]
+    src_overflow = ["Starcal.SrcTie.NoOverflow2"]
     # the comparator tie not established: the quick tier already enumerates every tie-breaking case (all lists of <=3
     # intervals over 0..6, both end kinds, every order), so no wider sweep is needed
     supports_wide = True
